@@ -59,13 +59,17 @@ impl<C: ContentAddrStore> CoinMapping<C> {
     /// Removes a coin from the coin mapping.
     pub fn remove_coin(&mut self, id: CoinID, tip_906: bool) {
         let id = id.stdcode();
+        let existing = self.inner.get(tmelcrypt::hash_single(&id).0);
+        if existing.is_empty() {
+            // Nothing to remove. Deleting a key that is not bound leaves the root hash unchanged but makes
+            // the tree miscount its nodes, and a later removal can then abort the whole process (the "old
+            // rules" deposit path removes a coin id that never existed).
+            return;
+        }
         if tip_906 {
-            let existing = self.inner.get(tmelcrypt::hash_single(&id).0);
-            if !existing.is_empty() {
-                let data: CoinDataHeight = stdcode::deserialize(&existing).unwrap();
-                let count = self.coin_count(data.coin_data.covhash);
-                self.insert_coin_count(data.coin_data.covhash, count - 1);
-            }
+            let data: CoinDataHeight = stdcode::deserialize(&existing).unwrap();
+            let count = self.coin_count(data.coin_data.covhash);
+            self.insert_coin_count(data.coin_data.covhash, count - 1);
         }
         self.inner
             .insert(tmelcrypt::hash_single(&id).0, EMPTY_STR_AS_BYTES);
